@@ -19,7 +19,6 @@ import (
 
 	"github.com/valyala/fasthttp"
 
-	"verif/internal/mon"
 	"verif/props/c04/tagsrv"
 )
 
@@ -85,7 +84,8 @@ type slotRound struct {
 	never    []string    // ... and not even back 10 s after the dial was released
 	started  time.Time
 	end      time.Time
-	stacks   string
+	evidence map[string]string // id -> "[state] in frame" at deadline + slack
+	outside  map[string]bool   // id -> blocked inside fasthttp on something other than its timer select
 	// controlLag: next to the k callers run k control goroutines that were started by the same
 	// goroutine at the same moment and do nothing but wait on a fresh timer of the same duration;
 	// this is how late the latest of them woke up (runtime / OS scheduling, not fasthttp).
@@ -101,6 +101,7 @@ func runSlotRound(idx, round int, k int, timeout time.Duration, srv *tagsrv.Serv
 	var mu sync.Mutex
 	var wg sync.WaitGroup
 	inCall := make([]atomic.Int64, k) // deadline (UnixNano) while inside the call
+	goids := make([]atomic.Int64, k)
 	for g := 0; g < k; g++ {
 		wg.Add(1)
 		go func(g int) {
@@ -108,6 +109,7 @@ func runSlotRound(idx, round int, k int, timeout time.Duration, srv *tagsrv.Serv
 			id := fmt.Sprintf("q%d.r%d.g%d", idx, round, g)
 			c := &slotCall{ID: id}
 			me := goid()
+			goids[g].Store(me)
 			lineUps.Store(me, l)
 			defer lineUps.Delete(me)
 			func() {
@@ -169,15 +171,22 @@ func runSlotRound(idx, round int, k int, timeout time.Duration, srv *tagsrv.Serv
 	select {
 	case <-done:
 	case <-time.After(timeout + slack + 100*time.Millisecond):
-		// somebody is still inside the call at deadline + slack: the dial keeps hanging until
-		// it is 3 s past the deadline, so that "late" and "freed only by the end of the hang" differ
+		// somebody is still inside the call at deadline + slack: what is its goroutine doing?
+		res.evidence, res.outside = map[string]string{}, map[string]bool{}
+		dump := dumpAfter(time.Now())
+		for g := range inCall {
+			if inCall[g].Load() != 0 {
+				id := fmt.Sprintf("q%d.r%d.g%d", idx, round, g)
+				st, fr, out := stackVerdict(stackOf(dump, goids[g].Load()))
+				res.evidence[id], res.outside[id] = "["+st+"] in "+fr, out
+			}
+		}
+		// the dial keeps hanging until it is 3 s past the deadline, so that "late" and "freed only
+		// by the end of the hang" differ
 		select {
 		case <-done:
 		case <-time.After(minStall - slack):
 			res.blocked = stillIn(minStall)
-			if len(res.blocked) > 0 && stackDumps.Add(1) <= 5 {
-				res.stacks = mon.Stacks()
-			}
 		}
 	}
 	close(dialGate) // the worker gets its connection, skips the expired works and retires when idle
